@@ -160,7 +160,7 @@ class C34(Property):
     def explore(self, ctx: Ctx) -> None:
         C.warm_up()
         rng = ctx.rng
-        n = {"quick": 10, "thorough": 90}[ctx.tier] * (2 if ctx.mode == "search" else 1)
+        n = {"quick": 8, "thorough": 90}[ctx.tier] * (2 if ctx.mode == "search" else 1)
         cases, descs = [], {}
         # corpus: a fixed three-step document with a File, an array and a null output
         for i in range(n + 1):
